@@ -10,6 +10,8 @@
 (***************************************************************************)
 EXTENDS Message, TraceBase
 
+CONSTANT Prop      \* "C12": a crash is the violation; "C14": a crash ends the segment without a verdict (it is C12's finding)
+
 VARIABLES l, prev, pop
 \* prev: projection(s) before the event (a sign projection, or a sequence of them for a bus)
 \* pop:  the bus population [addr, flip] (empty for single-sign traces)
@@ -62,14 +64,19 @@ Isolation ==
     \* messages that only signs send are not for signs: ignored by everybody
     /\ (E.m.k \in {"ReportState", "AckOperation", "Unknown"} => E.r.k = "None" /\ E.obs = prev)
 
+Crashed == E.r.k \in {"Panic", "BusError"}
 BusStepEv ==
     /\ IsEvent("busstep")
-    /\ NoPanic
+    /\ (Prop = "C12" => NoPanic)
+    /\ ~Crashed
     /\ Len(E.obs) = Len(pop)
     /\ \A i \in 1..Len(pop) : EndsTransfer(prev[i], E.obs[i])
     /\ ("solo" \in DOMAIN E => E.before = prev /\ Isolation)
     /\ prev' = E.obs /\ UNCHANGED pop
 
-Next == Reset \/ StepEv \/ BusReset \/ BusStepEv
+\* C14 only: a crashed step is skipped (the recorder ends the walk there; the next event is a busreset)
+BusCrash == /\ IsEvent("busstep") /\ Prop # "C12" /\ Crashed /\ UNCHANGED <<prev, pop>>
+
+Next == Reset \/ StepEv \/ BusReset \/ BusStepEv \/ BusCrash
 Spec == Init /\ [][Next]_vars
 =============================================================================
